@@ -671,6 +671,9 @@ def schedule_recipe(draw, tier="quick", kernel=None):
     types = draw(_widths(kernel, wmode))
     tags.append(f"widths:{wmode}")
     slack_rows = []
+    # recipe-level flavour: most schedules access their operands completely; the odd index styles are confined to a minority
+    flavour = draw(st.sampled_from(["plain"] * 8 + ["conv"] * 4 + ["reversed"] * 2 + ["partial"] * 2))
+    tags.append(f"flavour:{flavour}")
     for q in range(nops):
         # dims this operand depends on; the rest are reduction dims (outputs) / broadcast dims (inputs)
         if q == nops - 1 or draw(st.integers(0, 2)) > 0 or n == 1:
@@ -689,7 +692,15 @@ def schedule_recipe(draw, tier="quick", kernel=None):
         i = 0
         while i < len(used):
             rw = [0] * n
-            style = draw(st.integers(0, 11))
+            style = draw(st.integers(0, 5))
+            if flavour == "plain" or (flavour == "conv" and style > 1) or style > 3:
+                style = 99
+            elif flavour == "conv":
+                style = 0
+            elif flavour == "reversed":
+                style = 2
+            else:
+                style = draw(st.sampled_from([1, 1, 3, 4]))
             if style == 0 and i + 1 < len(used):
                 # conv-like compound expression s*da + dl*db
                 s_, dl_ = draw(st.sampled_from([(1, 1), (1, 1), (2, 1), (1, 2), (2, 2), (3, 1)]))
@@ -698,7 +709,7 @@ def schedule_recipe(draw, tier="quick", kernel=None):
                 i += 2
                 rows.append(rw)
                 b.append(0)
-                slk.append(draw(st.sampled_from([0, 0, 0, 1, 2, 5])))
+                slk.append(draw(st.sampled_from([0, 0, 0, 0, 0, 1, 2, 5])))
                 tags.append("has:compound-index")
                 continue
             if style == 1:
@@ -711,12 +722,12 @@ def schedule_recipe(draw, tier="quick", kernel=None):
                 b.append(bounds[used[i]] - 1)
                 slk.append(0)
                 tags.append("has:reversed-index")
-            elif style == 3 and draw(st.booleans()):
+            elif style == 3:
                 rw[used[i]] = 1
                 b.append(draw(st.integers(1, 3)))  # constant offset
                 slk.append(0)
                 tags.append("has:offset-index")
-            elif style == 4 and draw(st.integers(0, 2)) == 0:
+            elif style == 4:
                 rw[used[i]] = 1
                 b.append(0)
                 slk.append(bounds[used[i]] * draw(st.sampled_from([1, 1, 2])))  # operand larger than the iteration space
